@@ -5,6 +5,7 @@ table of variants (a mutation descriptor of c08_mut + the abstract feature value
 lean/TlsModel/Flights.lean knows).  A case picks one variant per message, a cooperating peer sends the
 flight, the victim's answer (alert description + message) is compared with the model's decision function
 and judged by the C08 oracle."""
+import os
 import zlib
 
 from . import c08_mut as M
@@ -499,7 +500,10 @@ def flight_stream(ctx, J, bases, n_random):
             if fname == "tls12-client" and combo.get("shd") == "drop":
                 # the server's ChangeCipherSpec / Finished answer the client's flight, which is never sent
                 items = [x for x in items if not (x.startswith("c:20") or x.startswith("h:20"))]
-            L, applied, peak = c08.run_handshake_case(base.scn, side, muts, None, base.ctxm)
+            # every second combination with an application that keeps the socket (closeSocket=False): the alert has to
+            # reach the peer by the library's own write
+            close_socket = zlib.crc32(repr(sorted(combo.items())).encode()) % 2 == 0
+            L, applied, peak = c08.run_handshake_case(base.scn, side, muts, None, base.ctxm, close_socket=close_socket)
             if L is None or applied.get("inapplicable"):
                 ctx.count("flight-inapplicable:%s" % fname)
                 continue
@@ -507,8 +511,9 @@ def flight_stream(ctx, J, bases, n_random):
             line = "%s items=%s" % (opline, ";".join(items) or "-")
             replay = {"stage": "flight", "scn": sname, "side": side, "muts": {str(k): v for k, v in muts.items()},
                       "ctxm": base.ctxm, "msg": fname, "cls": "flight-" + "+".join("%s=%s" % kv for kv in sorted(combo.items())),
-                      "line": line}
-            c08.judge(J, L, victim, "%s flight %s" % (fname, sorted(combo.items())), replay)
+                      "line": line, "close_socket": close_socket}
+            c08.judge(J, L, victim, "%s flight %s%s" % (fname, sorted(combo.items()), "" if close_socket else " closeSocket=False"),
+                      replay)
             ctx.case(key=("flight", sname, side, tuple(sorted(combo.items()))), nontrivial=True,
                      sample={"flight": fname, "scenario": sname, "variants": combo, "impl": list(impl)}
                      if ctx.evaluations % 401 == 0 else None)
@@ -986,6 +991,7 @@ def keyed_peer_stream(ctx, J, thorough, only=None):
     scns = {s.name: s for s in c08.all_scenarios()}
     rng = ctx.rng
     names = KEYED_SCENARIOS if only is None else [only[0]]
+    rot, pair = rng.randrange(4), 0
     for sname in names:
         scn = scns.get(sname)
         if scn is None:
@@ -1026,8 +1032,11 @@ def keyed_peer_stream(ctx, J, thorough, only=None):
             if only is not None:
                 cnames = [n for n in cnames if n == only[2]]
             elif not thorough:
+                # quick: the encrypt-then-MAC degenerate records always, a rotating quarter of the others (a fresh
+                # connection per record costs ~80 ms)
                 keep = [n for n in cnames if not n.startswith("valid-type-") or n.endswith("0-bytes")]
-                cnames = keep
+                cnames = [n for i, n in enumerate(keep) if n.startswith("etm-") or (i + pair + rot) % 4 == 0]
+            pair += 1
             for cname in cnames:
                 if ctx.out_of_time(0.75):
                     return
@@ -1054,3 +1063,180 @@ def keyed_peer_stream(ctx, J, thorough, only=None):
                          sample={"scenario": sname, "victim": victim, "record": cname, "outcome": out["cls"]}
                          if cname.startswith("etm-iv-only") else None)
                 ctx.count("keyed:" + out["cls"].split(":")[0])
+
+
+# ---------------------------------------------------------------------------------------------
+# certificates with structurally valid DER but unusual SubjectPublicKeyInfo, in every place a peer's certificate
+# is parsed (server Certificate TLS 1.2 / 1.3, client Certificate, CompressedCertificate)
+OID_RSA, OID_RSAPSS, OID_EC, OID_DSA = "1.2.840.113549.1.1.1", "1.2.840.113549.1.1.10", "1.2.840.10045.2.1", "1.2.840.10040.4.1"
+OID_ED25519, OID_ED448 = "1.3.101.112", "1.3.101.113"
+P256, P384, P521 = "1.2.840.10045.3.1.7", "1.3.132.0.34", "1.3.132.0.35"
+
+
+def spki_variants(rsa_spki, ec_spki):
+    """(name, SubjectPublicKeyInfo DER) - the real keys of the test certificates give the honest parts"""
+    D = M
+    out = []
+
+    def add(name, spki):
+        out.append((name, bytes(spki)))
+    # --- the real RSA key: modulus and exponent
+    alg, bits = D.der_children(D.der_read(rsa_spki)[1])
+    rsakey = D.der_children(D.der_read(bits[1][1:])[1])
+    n = int.from_bytes(rsakey[0][1], "big")
+    e = int.from_bytes(rsakey[1][1], "big")
+    rsa_alg = D.der_seq(D.der_oid(OID_RSA), D.DER_NULL)
+
+    def rsa(nn=None, ee=None, raw_n=None, raw_e=None, alg_=rsa_alg, unused=0, extra=b"", inner_tag=0x30):
+        ints = (D.der_int(nn, raw_n) if (nn is not None or raw_n is not None) else b"") + \
+               (D.der_int(ee, raw_e) if (ee is not None or raw_e is not None) else b"") + extra
+        return D.der_seq(alg_, D.der_bits(D.der_enc(inner_tag, ints), unused))
+    add("rsa-e-0", rsa(n, 0))
+    add("rsa-e-1", rsa(n, 1))
+    add("rsa-e-even", rsa(n, 65536))
+    add("rsa-e-huge", rsa(n, (1 << 4096) + 1))
+    add("rsa-e-negative", rsa(n, raw_e=b"\xff\x01"))
+    add("rsa-n-0", rsa(0, e))
+    add("rsa-n-0-e-0", rsa(0, 0))
+    add("rsa-n-1", rsa(1, e))
+    add("rsa-n-tiny", rsa(187, e))
+    add("rsa-n-even", rsa(n + 1, e))
+    add("rsa-n-negative", rsa(None, e, raw_n=b"\x80" + rsakey[0][1][1:]))
+    add("rsa-n-16384-bits", rsa((1 << 16383) | 1, e))
+    add("rsa-n-70000-bits", rsa((1 << 69999) | 1, e))
+    add("rsa-n-empty-integer", rsa(None, e, raw_n=b""))
+    add("rsa-missing-e", rsa(n, None))
+    add("rsa-extra-integer", rsa(n, e, extra=D.der_int(5)))
+    add("rsa-key-not-sequence", rsa(n, e, inner_tag=0x31))
+    add("rsa-bitstring-unused-1", rsa(n, e, unused=1))
+    add("rsa-bitstring-unused-255", rsa(n, e, unused=255))
+    add("rsa-bitstring-empty", D.der_seq(rsa_alg, D.der_enc(0x03, b"")))
+    add("rsa-bitstring-only-unused-byte", D.der_seq(rsa_alg, D.der_enc(0x03, b"\x00")))
+    add("rsa-key-is-octet-string", D.der_seq(rsa_alg, D.der_enc(0x04, bits[1])))
+    add("rsa-alg-no-params", rsa(n, e, alg_=D.der_seq(D.der_oid(OID_RSA))))
+    add("rsa-alg-empty-sequence", rsa(n, e, alg_=D.der_seq()))
+    add("rsa-alg-oid-empty", rsa(n, e, alg_=D.der_seq(D.der_enc(0x06, b""), D.DER_NULL)))
+    add("rsapss-no-params", rsa(n, e, alg_=D.der_seq(D.der_oid(OID_RSAPSS))))
+    add("rsapss-garbage-params", rsa(n, e, alg_=D.der_seq(D.der_oid(OID_RSAPSS), D.der_seq(D.der_int(1), D.der_int(2)))))
+    add("unknown-algorithm-oid", rsa(n, e, alg_=D.der_seq(D.der_oid("1.2.3.4.5"), D.DER_NULL)))
+    add("spki-empty-sequence", D.der_seq())
+    add("spki-only-algorithm", D.der_seq(rsa_alg))
+    add("spki-is-integer", D.der_int(5))
+    # --- EC: the real point of the P-256 test certificate
+    ealg, ebits = D.der_children(D.der_read(ec_spki)[1])
+    point = ebits[1][1:]
+
+    def ec(params, pt=point, unused=0):
+        return D.der_seq(D.der_seq(D.der_oid(OID_EC), params), D.der_bits(pt, unused))
+    add("ec-curve-prime239v1", ec(D.der_oid("1.2.840.10045.3.1.1")))
+    add("ec-curve-unknown-oid", ec(D.der_oid("1.2.3.4")))
+    add("ec-curve-secp224r1", ec(D.der_oid("1.3.132.0.33"), b"\x04" + b"\x11" * 56))
+    add("ec-curve-secp256k1", ec(D.der_oid("1.3.132.0.10")))
+    add("ec-curve-p384-with-p256-point", ec(D.der_oid(P384)))
+    add("ec-params-null", ec(D.DER_NULL))
+    add("ec-params-missing", D.der_seq(D.der_seq(D.der_oid(OID_EC)), D.der_bits(point)))
+    add("ec-params-explicit", ec(D.der_seq(D.der_int(1), D.der_seq(D.der_oid("1.2.840.10045.1.1"), D.der_int((1 << 256) - 189)),
+                                           D.der_seq(D.der_enc(0x04, b"\x01" * 32), D.der_enc(0x04, b"\x02" * 32)),
+                                           D.der_enc(0x04, point), D.der_int((1 << 256) - 1000), D.der_int(1))))
+    add("ec-params-integer", ec(D.der_int(7)))
+    add("ec-point-empty", ec(D.der_oid(P256), b""))
+    add("ec-point-one-byte", ec(D.der_oid(P256), b"\x04"))
+    add("ec-point-infinity", ec(D.der_oid(P256), b"\x00"))
+    add("ec-point-short", ec(D.der_oid(P256), point[:-1]))
+    add("ec-point-long", ec(D.der_oid(P256), point + b"\x00"))
+    add("ec-point-not-on-curve", ec(D.der_oid(P256), b"\x04" + b"\x12" * 64))
+    add("ec-point-zero", ec(D.der_oid(P256), b"\x04" + b"\x00" * 64))
+    add("ec-point-compressed", ec(D.der_oid(P256), b"\x02" + point[1:33]))
+    add("ec-point-hybrid", ec(D.der_oid(P256), b"\x06" + point[1:]))
+    add("ec-point-unused-bits-3", ec(D.der_oid(P256), point, unused=3))
+    add("ec-bitstring-empty", D.der_seq(D.der_seq(D.der_oid(OID_EC), D.der_oid(P256)), D.der_enc(0x03, b"")))
+    # --- DSA
+    dsa_p, dsa_q, dsa_g = (1 << 1023) | 1, (1 << 159) | 1, 2
+
+    def dsa(params, y):
+        return D.der_seq(D.der_seq(D.der_oid(OID_DSA)) if params is None else D.der_seq(D.der_oid(OID_DSA), params),
+                         D.der_bits(y))
+    add("dsa-params-missing", dsa(None, D.der_int(12345)))
+    add("dsa-params-null", dsa(D.DER_NULL, D.der_int(12345)))
+    add("dsa-params-two-integers", dsa(D.der_seq(D.der_int(dsa_p), D.der_int(dsa_q)), D.der_int(12345)))
+    add("dsa-p-0", dsa(D.der_seq(D.der_int(0), D.der_int(dsa_q), D.der_int(dsa_g)), D.der_int(12345)))
+    add("dsa-y-0", dsa(D.der_seq(D.der_int(dsa_p), D.der_int(dsa_q), D.der_int(dsa_g)), D.der_int(0)))
+    add("dsa-y-not-integer", dsa(D.der_seq(D.der_int(dsa_p), D.der_int(dsa_q), D.der_int(dsa_g)), D.der_enc(0x04, b"\x01")))
+    add("dsa-bitstring-empty", D.der_seq(D.der_seq(D.der_oid(OID_DSA), D.der_seq(D.der_int(dsa_p), D.der_int(dsa_q), D.der_int(dsa_g))),
+                                         D.der_enc(0x03, b"")))
+    add("dsa-bitstring-unused-1", D.der_seq(D.der_seq(D.der_oid(OID_DSA), D.der_seq(D.der_int(dsa_p), D.der_int(dsa_q), D.der_int(dsa_g))),
+                                            D.der_bits(D.der_int(12345), 1)))
+    add("dsa-y-empty", dsa(D.der_seq(D.der_int(dsa_p), D.der_int(dsa_q), D.der_int(dsa_g)), b""))
+    # --- EdDSA
+    for nm, oid_, good in (("ed25519", OID_ED25519, 32), ("ed448", OID_ED448, 57)):
+        for ln in (0, 1, good - 1, good + 1, 2 * good):
+            add("%s-key-%d-bytes" % (nm, ln), D.der_seq(D.der_seq(D.der_oid(oid_)), D.der_bits(b"\x11" * ln)))
+        add("%s-with-null-params" % nm, D.der_seq(D.der_seq(D.der_oid(oid_), D.DER_NULL), D.der_bits(b"\x11" * good)))
+        add("%s-unused-bits-7" % nm, D.der_seq(D.der_seq(D.der_oid(oid_)), D.der_bits(b"\x11" * good, 7)))
+        add("%s-all-ff" % nm, D.der_seq(D.der_seq(D.der_oid(oid_)), D.der_bits(b"\xff" * good)))
+    return out
+
+
+CERT_TARGETS = [
+    # scenario, sender of the certificate, message name
+    ("tls12-ecdhe-rsa", "server", "handshake:certificate"),
+    ("tls13-nocompress", "server", "handshake:certificate"),
+    ("tls13-x25519", "server", "handshake:compressed_certificate"),
+    ("tls12-clientauth", "client", "handshake:certificate"),
+    ("tls13-clientauth-nocompress", "client", "handshake:certificate"),
+    ("tls13-clientauth", "client", "handshake:compressed_certificate"),
+    ("tls11-rsa-3des", "server", "handshake:certificate"),      # RSA key exchange: the client encrypts to the key
+    ("tls12-ecdsa", "server", "handshake:certificate"),
+    ("tls10-clientauth", "client", "handshake:certificate"),
+]
+
+
+def pem_der(path):
+    import base64
+    import re
+    txt = open(path).read()
+    return base64.b64decode("".join(re.findall(r"-----BEGIN CERTIFICATE-----(.*?)-----END", txt, re.S)[0].split()))
+
+
+def certificate_stream(ctx, J, bases, thorough, only=None):
+    from . import c08
+    rsa_spki = M.cert_get_spki(pem_der(os.path.join(ctx.repo, "tests", "serverX509Cert.pem")))
+    ec_spki = M.cert_get_spki(pem_der(os.path.join(ctx.repo, "tests", "serverECCert.pem")))
+    variants = spki_variants(rsa_spki, ec_spki)
+    targets = CERT_TARGETS if thorough else CERT_TARGETS[:7]
+    if only is not None:
+        targets = [t for t in CERT_TARGETS if t[0] == only[0] and t[1] == only[1]]
+        variants = [v for v in variants if v[0] == only[2]]
+    scns = {s.name: s for s in c08.all_scenarios()}
+    k = 0
+    for sname, side, msgname in targets:
+        base = bases.get(sname) if bases else None
+        if base is None:
+            base = c08.Baseline(scns[sname])
+        if not base.ok:
+            ctx.count("cert-skipped:" + sname)
+            continue
+        idx = [i for i, (n, ct, data, _) in enumerate(base.msgs[side]) if n == msgname]
+        if not idx:
+            ctx.count("cert-skipped-nomsg:" + sname)
+            continue
+        victim = "server" if side == "client" else "client"
+        for vi, (vname, spki) in enumerate(variants):
+            if ctx.out_of_time(0.8):
+                return
+            close_socket = zlib.crc32((sname + vname).encode()) % 2 == 0
+            d = {"op": "cert_spki", "spki": spki.hex(), "label": "certificate", "cls": "cert-spki-" + vname,
+                 "pver": list(base.ctxm["version"])}
+            L, peak, applied = c08.with_mem_confirm(ctx, victim, lambda: (lambda r: (r[0], r[2], r[1]))(
+                c08.run_handshake_case(base.scn, side, idx[0], d, base.ctxm, close_socket=close_socket)))
+            if L is None or applied.get("inapplicable"):
+                ctx.count("cert-inapplicable:" + sname)
+                continue
+            replay = {"stage": "cert-spki", "scn": sname, "side": side, "variant": vname, "msg": msgname.split(":")[-1],
+                      "cls": "cert-spki-" + vname}
+            out = c08.judge(J, L, victim, "certificate with public key %s in %s" % (vname, msgname.split(":")[-1]), replay, peak=peak)
+            ctx.case(key=("cert", sname, side, vname), nontrivial=True,
+                     sample={"scenario": sname, "victim": victim, "public_key": vname, "outcome": out["cls"]}
+                     if vname in ("ec-curve-prime239v1", "rsa-e-0") and sname == "tls12-ecdhe-rsa" else None)
+            ctx.count("cert:" + out["cls"].split(":")[0])
+        k += 1
